@@ -213,7 +213,8 @@ DevBulkChange == "bulk-created-keys-stored-with-change-0"
 \*    of the wallet already uses: the key lies at the other network's position and is labelled with the network asked for.
 \*  - DevPathAcct: keys created for a request that names the account in its path only (key_for_path([3, 0, 0]),
 \*    "m/84'/0'/3'/0/0", [3] with level_offset) are stored under the wallet's default account when that is not 0
-\*    (the path wins only over a default account 0): path and account column disagree.
+\*    (the path wins only over a default account 0, and in a call for several keys only for the first one):
+\*    path and account column disagree.
 DevPathAcct    == "account-named-in-the-path-stored-as-default-account"
 DevWatchAcct   == "watch-only-wallet-ignores-the-account-of-a-request"
 DevClashServed == "keys-served-for-a-network-whose-coin-type-is-taken"
